@@ -983,6 +983,16 @@ func (e *Env) specCall(sf *SpecFunc, argExprs []Expr) Val {
 		ts = append(ts, a.T)
 	}
 	rs, rt := sub.typeByName(sf.Ret)
+	first := !fc.B.declared["fun:spec_"+sf.Name]
 	fc.B.DeclFun("spec_"+sf.Name, sorts, rs)
+	if first {
+		// the axioms of an uninterpreted spec function are assumptions (listed in the evidence)
+		for _, ax := range sf.Axioms {
+			st0 := State{worlds: "Worlds0", heaps: map[string]string{}, ghosts: map[string]string{}, calls: map[string]string{}}
+			aenv := &Env{fc: fc, vars: map[string]Val{}, cur: &st0, old: &st0, pkgPath: sf.PkgPath}
+			fc.B.AssertNamed(fc.evalBool(aenv, ax.E), "axiom of spec "+sf.Name+": "+ax.Src)
+			fc.trusted["spec axiom "+sf.Name+": "+ax.Src] = true
+		}
+	}
 	return Val{S: rs, T: app("spec_"+sf.Name, ts...), Typ: rt}
 }
